@@ -150,6 +150,10 @@ fn cv<T: FromMeta + Obs>(m: &syn::Meta) -> Result<MV, darling::Error> {
 fn fnone<T: FromMeta + Obs>() -> Option<MV> {
     T::from_none().map(|v| v.obs())
 }
+type ListConv = fn(&[darling_core::ast::NestedMeta]) -> Result<MV, darling::Error>;
+fn cl<T: FromMeta + Obs>(items: &[darling_core::ast::NestedMeta]) -> Result<MV, darling::Error> {
+    T::from_list(items).map(|v| v.obs())
+}
 
 #[derive(Clone, Copy, Debug, PartialEq, Eq)]
 pub enum W {
@@ -173,34 +177,37 @@ pub struct Entry {
     pub from_none: FromNone,
     pub base: Conv,
     pub base_none: FromNone,
+    /// the `from_list` entry (what a flatten field calls)
+    pub list: ListConv,
+    pub base_list: ListConv,
 }
 
 macro_rules! w1 {
     ($name:expr, $t:ty, $out:ident) => {
-        $out.push(Entry { inner: $name, chain: vec![W::Opt], conv: cv::<Option<$t>>, from_none: fnone::<Option<$t>>, base: cv::<$t>, base_none: fnone::<$t> });
-        $out.push(Entry { inner: $name, chain: vec![W::Boxed], conv: cv::<Box<$t>>, from_none: fnone::<Box<$t>>, base: cv::<$t>, base_none: fnone::<$t> });
-        $out.push(Entry { inner: $name, chain: vec![W::RcW], conv: cv::<Rc<$t>>, from_none: fnone::<Rc<$t>>, base: cv::<$t>, base_none: fnone::<$t> });
-        $out.push(Entry { inner: $name, chain: vec![W::ArcW], conv: cv::<Arc<$t>>, from_none: fnone::<Arc<$t>>, base: cv::<$t>, base_none: fnone::<$t> });
-        $out.push(Entry { inner: $name, chain: vec![W::Cell], conv: cv::<RefCell<$t>>, from_none: fnone::<RefCell<$t>>, base: cv::<$t>, base_none: fnone::<$t> });
-        $out.push(Entry { inner: $name, chain: vec![W::Spanned], conv: cv::<SpannedValue<$t>>, from_none: fnone::<SpannedValue<$t>>, base: cv::<$t>, base_none: fnone::<$t> });
-        $out.push(Entry { inner: $name, chain: vec![W::Orig], conv: cv::<WithOriginal<$t, syn::Meta>>, from_none: fnone::<WithOriginal<$t, syn::Meta>>, base: cv::<$t>, base_none: fnone::<$t> });
-        $out.push(Entry { inner: $name, chain: vec![W::Over], conv: cv::<Override<$t>>, from_none: fnone::<Override<$t>>, base: cv::<$t>, base_none: fnone::<$t> });
-        $out.push(Entry { inner: $name, chain: vec![W::DRes], conv: cv::<darling::Result<$t>>, from_none: fnone::<darling::Result<$t>>, base: cv::<$t>, base_none: fnone::<$t> });
-        $out.push(Entry { inner: $name, chain: vec![W::MRes], conv: cv::<Result<$t, syn::Meta>>, from_none: fnone::<Result<$t, syn::Meta>>, base: cv::<$t>, base_none: fnone::<$t> });
+        $out.push(Entry { inner: $name, chain: vec![W::Opt], conv: cv::<Option<$t>>, from_none: fnone::<Option<$t>>, base: cv::<$t>, base_none: fnone::<$t>, list: cl::<Option<$t>>, base_list: cl::<$t> });
+        $out.push(Entry { inner: $name, chain: vec![W::Boxed], conv: cv::<Box<$t>>, from_none: fnone::<Box<$t>>, base: cv::<$t>, base_none: fnone::<$t>, list: cl::<Box<$t>>, base_list: cl::<$t> });
+        $out.push(Entry { inner: $name, chain: vec![W::RcW], conv: cv::<Rc<$t>>, from_none: fnone::<Rc<$t>>, base: cv::<$t>, base_none: fnone::<$t>, list: cl::<Rc<$t>>, base_list: cl::<$t> });
+        $out.push(Entry { inner: $name, chain: vec![W::ArcW], conv: cv::<Arc<$t>>, from_none: fnone::<Arc<$t>>, base: cv::<$t>, base_none: fnone::<$t>, list: cl::<Arc<$t>>, base_list: cl::<$t> });
+        $out.push(Entry { inner: $name, chain: vec![W::Cell], conv: cv::<RefCell<$t>>, from_none: fnone::<RefCell<$t>>, base: cv::<$t>, base_none: fnone::<$t>, list: cl::<RefCell<$t>>, base_list: cl::<$t> });
+        $out.push(Entry { inner: $name, chain: vec![W::Spanned], conv: cv::<SpannedValue<$t>>, from_none: fnone::<SpannedValue<$t>>, base: cv::<$t>, base_none: fnone::<$t>, list: cl::<SpannedValue<$t>>, base_list: cl::<$t> });
+        $out.push(Entry { inner: $name, chain: vec![W::Orig], conv: cv::<WithOriginal<$t, syn::Meta>>, from_none: fnone::<WithOriginal<$t, syn::Meta>>, base: cv::<$t>, base_none: fnone::<$t>, list: cl::<WithOriginal<$t, syn::Meta>>, base_list: cl::<$t> });
+        $out.push(Entry { inner: $name, chain: vec![W::Over], conv: cv::<Override<$t>>, from_none: fnone::<Override<$t>>, base: cv::<$t>, base_none: fnone::<$t>, list: cl::<Override<$t>>, base_list: cl::<$t> });
+        $out.push(Entry { inner: $name, chain: vec![W::DRes], conv: cv::<darling::Result<$t>>, from_none: fnone::<darling::Result<$t>>, base: cv::<$t>, base_none: fnone::<$t>, list: cl::<darling::Result<$t>>, base_list: cl::<$t> });
+        $out.push(Entry { inner: $name, chain: vec![W::MRes], conv: cv::<Result<$t, syn::Meta>>, from_none: fnone::<Result<$t, syn::Meta>>, base: cv::<$t>, base_none: fnone::<$t>, list: cl::<Result<$t, syn::Meta>>, base_list: cl::<$t> });
     };
 }
 
 macro_rules! w2_outer {
     ($name:expr, $t:ty, $inner_w:expr, $inner_ty:ty, $out:ident) => {
-        $out.push(Entry { inner: $name, chain: vec![W::Opt, $inner_w], conv: cv::<Option<$inner_ty>>, from_none: fnone::<Option<$inner_ty>>, base: cv::<$t>, base_none: fnone::<$t> });
-        $out.push(Entry { inner: $name, chain: vec![W::Boxed, $inner_w], conv: cv::<Box<$inner_ty>>, from_none: fnone::<Box<$inner_ty>>, base: cv::<$t>, base_none: fnone::<$t> });
-        $out.push(Entry { inner: $name, chain: vec![W::RcW, $inner_w], conv: cv::<Rc<$inner_ty>>, from_none: fnone::<Rc<$inner_ty>>, base: cv::<$t>, base_none: fnone::<$t> });
-        $out.push(Entry { inner: $name, chain: vec![W::Cell, $inner_w], conv: cv::<RefCell<$inner_ty>>, from_none: fnone::<RefCell<$inner_ty>>, base: cv::<$t>, base_none: fnone::<$t> });
-        $out.push(Entry { inner: $name, chain: vec![W::Spanned, $inner_w], conv: cv::<SpannedValue<$inner_ty>>, from_none: fnone::<SpannedValue<$inner_ty>>, base: cv::<$t>, base_none: fnone::<$t> });
-        $out.push(Entry { inner: $name, chain: vec![W::Orig, $inner_w], conv: cv::<WithOriginal<$inner_ty, syn::Meta>>, from_none: fnone::<WithOriginal<$inner_ty, syn::Meta>>, base: cv::<$t>, base_none: fnone::<$t> });
-        $out.push(Entry { inner: $name, chain: vec![W::Over, $inner_w], conv: cv::<Override<$inner_ty>>, from_none: fnone::<Override<$inner_ty>>, base: cv::<$t>, base_none: fnone::<$t> });
-        $out.push(Entry { inner: $name, chain: vec![W::DRes, $inner_w], conv: cv::<darling::Result<$inner_ty>>, from_none: fnone::<darling::Result<$inner_ty>>, base: cv::<$t>, base_none: fnone::<$t> });
-        $out.push(Entry { inner: $name, chain: vec![W::MRes, $inner_w], conv: cv::<Result<$inner_ty, syn::Meta>>, from_none: fnone::<Result<$inner_ty, syn::Meta>>, base: cv::<$t>, base_none: fnone::<$t> });
+        $out.push(Entry { inner: $name, chain: vec![W::Opt, $inner_w], conv: cv::<Option<$inner_ty>>, from_none: fnone::<Option<$inner_ty>>, base: cv::<$t>, base_none: fnone::<$t>, list: cl::<Option<$inner_ty>>, base_list: cl::<$t> });
+        $out.push(Entry { inner: $name, chain: vec![W::Boxed, $inner_w], conv: cv::<Box<$inner_ty>>, from_none: fnone::<Box<$inner_ty>>, base: cv::<$t>, base_none: fnone::<$t>, list: cl::<Box<$inner_ty>>, base_list: cl::<$t> });
+        $out.push(Entry { inner: $name, chain: vec![W::RcW, $inner_w], conv: cv::<Rc<$inner_ty>>, from_none: fnone::<Rc<$inner_ty>>, base: cv::<$t>, base_none: fnone::<$t>, list: cl::<Rc<$inner_ty>>, base_list: cl::<$t> });
+        $out.push(Entry { inner: $name, chain: vec![W::Cell, $inner_w], conv: cv::<RefCell<$inner_ty>>, from_none: fnone::<RefCell<$inner_ty>>, base: cv::<$t>, base_none: fnone::<$t>, list: cl::<RefCell<$inner_ty>>, base_list: cl::<$t> });
+        $out.push(Entry { inner: $name, chain: vec![W::Spanned, $inner_w], conv: cv::<SpannedValue<$inner_ty>>, from_none: fnone::<SpannedValue<$inner_ty>>, base: cv::<$t>, base_none: fnone::<$t>, list: cl::<SpannedValue<$inner_ty>>, base_list: cl::<$t> });
+        $out.push(Entry { inner: $name, chain: vec![W::Orig, $inner_w], conv: cv::<WithOriginal<$inner_ty, syn::Meta>>, from_none: fnone::<WithOriginal<$inner_ty, syn::Meta>>, base: cv::<$t>, base_none: fnone::<$t>, list: cl::<WithOriginal<$inner_ty, syn::Meta>>, base_list: cl::<$t> });
+        $out.push(Entry { inner: $name, chain: vec![W::Over, $inner_w], conv: cv::<Override<$inner_ty>>, from_none: fnone::<Override<$inner_ty>>, base: cv::<$t>, base_none: fnone::<$t>, list: cl::<Override<$inner_ty>>, base_list: cl::<$t> });
+        $out.push(Entry { inner: $name, chain: vec![W::DRes, $inner_w], conv: cv::<darling::Result<$inner_ty>>, from_none: fnone::<darling::Result<$inner_ty>>, base: cv::<$t>, base_none: fnone::<$t>, list: cl::<darling::Result<$inner_ty>>, base_list: cl::<$t> });
+        $out.push(Entry { inner: $name, chain: vec![W::MRes, $inner_w], conv: cv::<Result<$inner_ty, syn::Meta>>, from_none: fnone::<Result<$inner_ty, syn::Meta>>, base: cv::<$t>, base_none: fnone::<$t>, list: cl::<Result<$inner_ty, syn::Meta>>, base_list: cl::<$t> });
     };
 }
 
@@ -420,6 +427,44 @@ fn check_meta(ctx: &Ctx, m: syn::Meta, src: &str, table: &[Entry]) -> Result<(),
                     None => ensure!(gs.map(|g| inside(g, item)).unwrap_or(true), format!("c12:error-span-outside:{}", wsig), "{}: error span {:?} outside the item {:?}", name, gs, item),
                 }
             }
+        }
+    }
+    // the `from_list` entry (what a `#[darling(flatten)]` field calls with the left-over items): smart pointers
+    // and Override forward it, darling's Result<T> holds T's outcome without failing outwardly, every other wrapper does not
+    // override it
+    if let syn::Meta::List(l) = &m {
+        if let Ok(items) = darling_core::ast::NestedMeta::parse_meta_list(l.tokens.clone()) {
+            for e in table {
+                ctx.eval();
+                let base = match catch(|| (e.base_list)(&items)) {
+                    Ok(r) => r,
+                    Err(p) => fail!("c12:panic", "{}::from_list(items of `{}`) panicked: {}", e.inner, src, p),
+                };
+                let mut want: Result<MV, String> = base.map_err(|er| er.to_string());
+                for w in e.chain.iter().rev() {
+                    want = match w {
+                        W::Boxed | W::RcW | W::ArcW | W::Cell | W::Over => want,
+                        W::DRes => Ok(match want {
+                            Ok(v) => MV::ResOk(Box::new(v)),
+                            Err(d) => MV::ResErr(d),
+                        }),
+                        W::Opt | W::Spanned | W::Orig | W::MRes => Err("Unexpected meta-item format `list`".to_string()),
+                    };
+                }
+                let got = match catch(|| (e.list)(&items)) {
+                    Ok(r) => r,
+                    Err(p) => fail!("c12:panic", "{:?}<{}>::from_list(items of `{}`) panicked: {}", e.chain, e.inner, src, p),
+                };
+                let name = format!("{:?}<{}>::from_list", e.chain, e.inner);
+                let wsig = format!("{:?}", e.chain[0]);
+                match (&got, &want) {
+                    (Ok(g), Ok(w)) => ensure!(mv_eq(g, w, true), format!("c12:from_list:value-differs:{}", wsig), "{}(items of `{}`) = {:?}, expected {:?}", name, src, g, w),
+                    (Ok(g), Err(d)) => fail!(format!("c12:from_list:accepts-more:{}", wsig), "{}(items of `{}`) = {:?}, expected the error `{}`", name, src, g, d),
+                    (Err(er), Ok(w)) => fail!(format!("c12:from_list:rejects-more:{}", wsig), "{}(items of `{}`) fails with `{}`, expected {:?}", name, src, er, w),
+                    (Err(er), Err(d)) => ensure!(er.to_string() == *d, format!("c12:from_list:error-differs:{}", wsig), "{}(items of `{}`) fails with `{}`, expected `{}`", name, src, er, d),
+                }
+            }
+            ctx.class("entry:from_list");
         }
     }
     ctx.sample(|| json!({"item": src, "form": form}));
